@@ -32,8 +32,28 @@ where
     A: crate::BaseAllocator<S::GuaranteedAllocated> + Default,
     S: BumpAllocatorSettings,
 {
+    ob_bump_vec_rs::<A, S>(hint, overflow_only, true);
+}
+
+/// `fresh`: the arena is fresh (nothing allocated) instead of an arbitrary state - a much smaller obligation that
+/// still exercises BumpVec's own growth arithmetic (where a size overflow has to become an error).
+pub(crate) fn ob_bump_vec_fresh_overflow<A, S>(hint: usize)
+where
+    A: crate::BaseAllocator<S::GuaranteedAllocated> + Default,
+    S: BumpAllocatorSettings,
+{
+    ob_bump_vec_rs::<A, S>(hint, true, false);
+}
+
+pub(crate) fn ob_bump_vec_rs<A, S>(hint: usize, overflow_only: bool, arbitrary_state: bool)
+where
+    A: crate::BaseAllocator<S::GuaranteedAllocated> + Default,
+    S: BumpAllocatorSettings,
+{
     let mut a = Arena::<A, S>::build(1, hint);
-    a.havoc();
+    if arbitrary_state {
+        a.havoc();
+    }
     let bytes0 = a.allocated_bytes();
     let pos0 = a.snaps()[0].pos;
     unsafe { BUDGET = 0 };
@@ -146,6 +166,16 @@ pub(crate) fn bump_vec_overflow_up1() {
 #[kani::unwind(5)]
 pub(crate) fn bump_vec_overflow_dn8() {
     ob_bump_vec_overflow::<LogAlloc, SDn8>(64);
+}
+#[kani::proof]
+#[kani::unwind(5)]
+pub(crate) fn bump_vec_fresh_overflow_up1() {
+    ob_bump_vec_fresh_overflow::<LogAlloc, SUp1>(64);
+}
+#[kani::proof]
+#[kani::unwind(5)]
+pub(crate) fn bump_vec_fresh_overflow_dn8() {
+    ob_bump_vec_fresh_overflow::<LogAlloc, SDn8>(64);
 }
 #[kani::proof]
 #[kani::unwind(5)]
